@@ -431,7 +431,7 @@ fn c11_gen_dag() -> GenCfg {
     g.dag = true;
     g.self_refs = false;
     g.generics = true;
-    g.kinds = [5, 1, 0, 2, 4, 4, 0];
+    g.kinds = [5, 1, 0, 2, 4, 4, 2];
     g
 }
 fn c11_gen_cyclic() -> GenCfg {
@@ -442,6 +442,17 @@ fn c11_gen_cyclic() -> GenCfg {
 }
 /// decouple source order from the dependency order: a deterministic shuffle keyed by the first item's layout
 fn c11_post(mut items: Vec<Item>) -> Vec<Item> {
+    // "const types" are an edge position too: type some consts by an integer alias of the same file
+    let int_alias: Option<String> = items.iter().find(|i| matches!(&i.kind, Kind::Alias { ty: Ty::Prim(p) } if matches!(p, Prim::U8 | Prim::U16 | Prim::U32 | Prim::I8 | Prim::I16 | Prim::I32 | Prim::I54 | Prim::U53)) && i.generics.is_empty()).map(|i| i.name.clone());
+    if let Some(a) = int_alias {
+        for it in items.iter_mut() {
+            if let Kind::Const { ty, .. } = &mut it.kind {
+                if it.layout % 2 == 0 {
+                    *ty = Ty::user(&a);
+                }
+            }
+        }
+    }
     let seed = items.first().map(|i| i.layout).unwrap_or(0);
     items.sort_by_key(|i| fnv(&[i.name.as_bytes(), &[seed]]));
     items
